@@ -206,3 +206,41 @@ def p_same_map(I, args, kwargs, node):
 
 
 PRIMS['same_map'] = p_same_map
+
+
+from .values import sort_of, ty_of, unwrap, wrap, parse_ty  # noqa: E402
+
+
+def p_env(I, args, kwargs, node):
+    """env('exists', 'bool', path): the environment observation function of an external declared
+    with function=True"""
+    short, rty = _m.concretise(args[0]), parse_ty(_m.concretise(args[1]))
+    a = args[2:]
+    f = z3.Function('env_' + short, *([z3.StringSort() if isinstance(x, (VStr, VToken)) else sort_of(ty_of(x))
+                                       for x in a] + [sort_of(rty)]))
+    return wrap(rty, f(*[x.t if isinstance(x, (VStr, VToken)) else unwrap(ty_of(x), x) for x in a]))
+
+
+PRIMS['env'] = p_env
+
+
+def p_loop_index(I, args, kwargs, node):
+    """loop_index(k): iteration index at which loop #k was left (break), or its length"""
+    k = _m.concretise(args[0])
+    d = I.ghost.get('loop_left_at', {})
+    return VInt(d[k]) if k in d else VInt(z3.Int('loop_%d_not_run' % k))
+
+
+PRIMS['loop_index'] = p_loop_index
+
+
+def p_at_loop(I, args, kwargs, node):
+    """at_loop(k, 'name'): value of a local when loop #k was entered"""
+    k, nm = _m.concretise(args[0]), _m.concretise(args[1])
+    env = I.ghost.get('loop_entry', {}).get(k)
+    if env is None or nm not in env:
+        return VStr(z3.String('loop_%d_not_entered_%s' % (k, nm)))
+    return env[nm]
+
+
+PRIMS['at_loop'] = p_at_loop
